@@ -229,7 +229,7 @@ BOUNDS = {
     "<=2 keyword-only, optional *args / **kwargs, every default placement, two name assignments mixing user and reserved names), as plain function and bound "
     "method, each path binding all of 0..3 positional arguments x every subset of keywords {x, y, source, q}; level 2 (sm.send end-to-end, sync and async engine): signatures with "
     "<= 2 named parameters as an `on_go` method, 0..2 positional arguments, keyword subsets of {x, y, source, q}, plus the same signature on the event that an "
-    "`after='hop'` action forwards to; level 3: two callables sharing qualified name and parameter names but not parameter kinds.",
+    "`after='hop'` action forwards to; level 3: every ordered pair out of 12 callables that share one qualified name and differ in parameter kinds, keyword-only names or defaults, bound one after the other.",
     "thorough": "<= 4 named parameters at level 1 also as functools.partial and coroutine function; <= 3 named at level 2.",
 }
 OUTSIDE = "more than 4 named parameters; properties/attributes as callbacks (no binding happens); a keyword naming a positional-only parameter that has a default (left unconstrained); annotations"
@@ -460,33 +460,58 @@ def l2_one(ctx, sm, sig, args, ukw, tag):
     ctx.cover("forwarded-nested")
 
 
+L3_SIGS = [
+    (("pk", "x", False), ("pk", "y", False)),
+    (("pk", "x", False), ("pk", "y", True)),
+    (("po", "x", False), ("pk", "y", False)),
+    (("po", "x", False), ("po", "y", True)),
+    (("pk", "x", False), ("ko", "y", False)),
+    (("pk", "x", False), ("ko", "y", True)),
+    (("pk", "x", False), ("va", "args", False), ("ko", "y", True)),
+    (("pk", "x", False), ("vk", "kw", False)),
+    (("pk", "x", False), ("ko", "q", True)),
+    (("pk", "x", False), ("ko", "source", True)),
+    (("pk", "x", False), ("ko", "q", True), ("vk", "kw", False)),
+    (("pk", "x", False),),
+]
+
+
+def make_shared(params_sig, idx):
+    """Callables that all carry the same name and qualified name ("shared")."""
+    key = ("shared", params_sig)
+    if key in _FN_CACHE:
+        return _FN_CACHE[key]
+    body_items = []
+    for k, name, _d in params_sig:
+        body_items.append('"*": args' if k == "va" else '"**": kw' if k == "vk" else f'"{name}": {name}')
+    src = f"def shared({sig_text(params_sig)}):\n    return {{{', '.join(body_items)}}}\n"
+    ns = {"_SENT": _SENT}
+    exec(compile(src, "<c07:shared>", "exec"), ns)  # noqa: S102
+    _FN_CACHE[key] = ns["shared"]
+    return ns["shared"]
+
+
 def run_l3(ctx, params):
-    """Two callbacks with the same qualified name and parameter names but different kinds: bound independently?"""
+    """Two callbacks with the same qualified name whose signatures differ in kinds / keyword-only names / defaults
+    are bound one after the other: each must be bound by its own signature."""
     from statemachine.dispatcher import callable_method
 
-    variants = ["def f(a, b=1): return ('pk', a, b)", "def f(a, *, b=1): return ('ko', a, b)", "def f(a, /, b=1): return ('po', a, b)"]
-    i = ctx.choose(3, "first")
-    j = ctx.choose(3, "second")
-    ctx.assume(i != j) if False else None
+    i = ctx.choose(len(L3_SIGS), "first")
+    j = ctx.choose(len(L3_SIGS), "second")
     if i == j:
         return
     with ctx.notracing():
-        fs = []
-        for v in (variants[i], variants[j]):
-            ns = {}
-            exec(v, ns)  # noqa: S102
-            fs.append(ns["f"])
-    x, y = ctx.sym_int("x"), ctx.sym_int("y")
-    outs = []
-    for f in fs:
-        try:
-            outs.append(callable_method(f)(x, y))
-        except TypeError:
-            outs.append("TypeError")
-    exp = []
-    for idx in (i, j):
-        exp.append(("pk", x, y) if idx == 0 else ("ko", x, 1) if idx == 1 else ("po", x, y))
-    for o, e, idx in zip(outs, exp, (i, j)):
-        if o == "TypeError" or not (o[0] == e[0] and o[1] is e[1] and (o[2] is e[2] or o[2] == e[2])):
-            raise Mismatch("signature-cache-aliases-same-qualname:L3", f"after binding {variants[i]!r}, {variants[j]!r} is bound with the first one's parameter kinds")
+        fns = [make_shared(L3_SIGS[i], i), make_shared(L3_SIGS[j], j)]
+    for which, (sig, fn) in enumerate(zip((L3_SIGS[i], L3_SIGS[j]), fns)):
+        wrapped = callable_method(fn)
+        for args, kwargs in all_shapes(ctx, ["x", "y", "q"], 2):
+            try:
+                judge(ctx, sig, args, kwargs, None, lambda: wrapped(*args, **dict(kwargs)), "L3")
+            except Mismatch as m:
+                if which == 1:
+                    raise Mismatch(
+                        "signature-cache-aliases-same-qualname:L3",
+                        f"after binding def shared({describe(L3_SIGS[i])}), def shared({describe(L3_SIGS[j])}) is bound wrongly: {m.msg[:200]}",
+                    )
+                raise
     ctx.cover("bound-ok")
